@@ -4,7 +4,7 @@
    pot_fill, treat_fill, geomcomp, comp_names) are those of C09/Model.v that
    the correspondence ties execute against the Python code. *)
 From Coq Require Import List NArith ZArith QArith Qpower Bool String Ascii.
-From T4V Require Import Base.Str C09.Model C09.Spec C09.ProofsNorm C09.ProofsIdem C09.ProofsValue C09.ProofsLike C09.ProofsFill C09.ProofsComp C09.ProofsWrite.
+From T4V Require Import Base.Str C09.Model C09.Spec C09.ProofsNorm C09.ProofsIdem C09.ProofsValue C09.ProofsLike C09.ProofsFill C09.ProofsComp C09.ProofsWrite C09.ProofsSign.
 Import ListNotations.
 Open Scope string_scope.
 
@@ -520,6 +520,32 @@ Theorem C09_block_head : forall (mc : mcard) (pw : list (string * list (string *
 Proof. exact block_text_head. Qed.
 Print Assumptions C09_block_head.
 
+(* a composition that a live cell asks for IS in the written text: the block of
+   every (material card, stored density) pair occurs in what writeT4Composition
+   writes (with C09_block_head: under the name GEOMCOMP uses, and with
+   C09_point_gets_leaf_material_linked: the composition of the innermost filler
+   of a located point) *)
+Theorem C09_block_written :
+  forall (mcs : list mcard) (cells : dict cell) (pw : list (string * list (string * string)))
+         (text : string) (mc : mcard) (d : string),
+  write_compositions mcs cells pw = Ok text -> dens_normal cells ->
+  In mc mcs -> asks (k_key mc) cells d ->
+  exists pre post, text = pre ++ block_text mc pw d ++ post.
+Proof. exact block_written. Qed.
+Print Assumptions C09_block_written.
+
+(* the type of a block: [neg_density] (the model of `float(density) < 0.0`,
+   tied byte for byte through block_text) holds of the stored density exactly
+   when the VALUE of the number spelled on the cell card is negative: a mass
+   density gives a DENSITY block, an atom density a POINT_WISE block; zero
+   (also written -0.0) is not negative *)
+Theorem C09_density_type_by_sign : forall (n : number) (pad : nat) (m : marker),
+  wf_number n = true -> marker_ok n m = true ->
+  exists nd, normalize_float (spell n pad m) = Ok nd /\
+             (neg_density nd = true <-> (number_value n < 0)%Q).
+Proof. exact neg_density_iff_negative. Qed.
+Print Assumptions C09_density_type_by_sign.
+
 Example C09_write_nontrivial :
   let cells := [(1, mkCell "1" (Some "-1.0") 1 0 None []); (2, mkCell "01" (Some "-2.5") 1 0 None []);
                 (3, mkCell "2" (Some "-7.8") 1 0 None []); (4, mkCell "1" (Some "-9.9") 1 2 None [])]%Z in
@@ -539,3 +565,68 @@ Example C09_compositions_nontrivial :
   comp_names 1 cells = Ok ["m1_-1.0"; "m1_-2.5"] /\
   normalize_float "-1.0" = Ok "-1.0" /\ normalize_float "-2.5" = Ok "-2.5".
 Proof. vm_compute. repeat split. Qed.
+
+(* ------------------------------------------------------------------------ *)
+(* LINK with C05: the volume that contains a located point                   *)
+(* ------------------------------------------------------------------------ *)
+From T4V Require C05.Model C05.Spec C05.Proofs Properties.C05.
+From T4V Require Import C09.LinkC05.
+
+(* C05 (Properties/C05.v: C05_pipeline_located, with C05_trcl_phase_den,
+   C05_fill_phase_located, C05_inline_cells_den for "parsed cells keep their
+   fields") gives, for the chain TRCL -> FILL -> inlining of construct_volume_t4
+   over abstract points, motions and senses obeying C05's two laws: every point
+   located in the deck as written along a descent ch below a filled level-0
+   cell lies in a returned cell k carrying prov ch and the leaf's material and
+   density tokens.  Reading C05's records as C09 records (bridge; mat_of /
+   dens_of spell C05's opaque tokens) and composing with C09_geomcomp_name and
+   C09_geomcomp_name_has_composition: that cell's volume is on the GEOMCOMP line
+   named after the material NUMBER and density of the INNERMOST FILLER cell
+   lcl = last ch, that composition is among the names constructCompositionT4
+   emits (for a live, non-void cell), and the cells of the other descents are
+   false at the point (VerdictW, universes being partitions). *)
+Theorem C09_point_gets_leaf_material_linked :
+  forall (T surf P : Type) (tr_empty : T -> bool) (teqb : T -> T -> bool)
+         (tr_surf : T -> surf -> surf) (inv : T -> P -> P) (sense : surf -> P -> bool),
+  T4V.Properties.C05.sense_law tr_surf inv sense -> T4V.Properties.C05.key_law tr_empty teqb inv ->
+  forall (mat_of : Z -> string) (dens_of : Z -> option string)
+         fuel cf ifd ifg num den (s0 s1 s2 : M5.state T surf) rs cells3,
+  P5.fresh_ok T surf s0 -> M5.s_cache s0 = [] -> NoDup (map fst (M5.s_cells s0)) ->
+  P5.all_ref_free T surf s0 ->
+  (forall c cl, M5.dget c (M5.s_cells s0) = Some cl -> M5.c_orig cl = []) ->
+  M5.trcl_phase T surf tr_empty teqb tr_surf fuel (map fst (M5.s_cells s0)) s0 = M5.Ok s1 ->
+  M5.fill_phase T surf tr_empty teqb tr_surf fuel cf ifd ifg s1 = M5.Ok (rs, s2) ->
+  M5.inline_cells T fuel num den (M5.s_cells s2) = M5.Ok cells3 ->
+  forall key ks, In (key, ks) (combine (M5.fill_keys (M5.s_cells s0)) rs) ->
+  forall vols g,
+  (forall k, In k ks -> exists v ncl, In (k, v) vols /\ v_fictive v = false /\
+                                      M5.dget k cells3 = Some ncl /\ v_origin v = M5.c_orig ncl) ->
+  geomcomp vols (bridge_cells T mat_of dens_of cells3) = Ok g ->
+  forall p ch,
+  S5.LocW T surf P tr_empty inv sense s0 (M5.by_universe (M5.s_cells s0)) key p ch true ->
+  exists k ncl lcl z,
+    In k ks /\
+    S5.Den T surf P sense (P5.set_cells T surf s2 cells3) p (M5.TRef k) true /\
+    M5.dget k cells3 = Some ncl /\ M5.c_orig ncl = S5.prov ch /\
+    M5.dget (last ch 0%Z) (M5.s_cells s0) = Some lcl /\
+    int_of_token (mat_of (M5.c_mat lcl)) = Some z /\
+    member g (material_name z (bridge T mat_of dens_of lcl)) k /\
+    (forall l d, comp_names z (bridge_cells T mat_of dens_of cells3) = Ok l ->
+                 dens_normal (bridge_cells T mat_of dens_of cells3) ->
+                 live (bridge T mat_of dens_of ncl) = true -> dens_of (M5.c_rho lcl) = Some d ->
+                 In ("m" ++ material_name z (bridge T mat_of dens_of lcl)) l) /\
+    (exists chs, Forall2 (S5.VerdictW T surf P tr_empty inv sense s0
+                            (M5.by_universe (M5.s_cells s0)) (P5.set_cells T surf s2 cells3) key p ch)
+                         ks chs).
+Proof.
+  intros T surf P tr_empty teqb tr_surf inv sense Hs Hk mat_of dens_of.
+  exact (point_gets_leaf_material_linked T surf P tr_empty teqb tr_surf inv sense Hs Hk mat_of dens_of).
+Qed.
+Print Assumptions C09_point_gets_leaf_material_linked.
+
+(* the bridge: a C05 cell record read as a C09 record *)
+Example C09_bridge_unfold : forall T mat_of dens_of (cl : M5.cell T),
+  bridge T mat_of dens_of cl =
+  mkCell (mat_of (M5.c_mat cl)) (dens_of (M5.c_rho cl)) (M5.c_imp cl) (M5.c_univ cl)
+         (M5.c_fill cl) (M5.c_orig cl).
+Proof. intros. reflexivity. Qed.
